@@ -3769,6 +3769,10 @@ func (d *Document) parseContentTypes() error {
 		return WrapError("parse_content_types", err)
 	}
 
+	// 该部件保存时总是用默认命名空间重新生成；原文件若用前缀声明命名空间（<ct:Types xmlns:ct="...">），
+	// Xmlns 字段读不到值，写出来就成了 <Types xmlns="">
+	contentTypes.Xmlns = "http://schemas.openxmlformats.org/package/2006/content-types"
+
 	d.contentTypes = &contentTypes
 	Debugf("内容类型解析完成")
 	return nil
@@ -3789,6 +3793,9 @@ func (d *Document) parseRelationships() error {
 	if err := xml.Unmarshal(relsData, &relationships); err != nil {
 		return WrapError("parse_relationships", err)
 	}
+
+	// 同上：关系部件用前缀声明命名空间时，保存时不能写成 <Relationships xmlns="">
+	relationships.Xmlns = "http://schemas.openxmlformats.org/package/2006/relationships"
 
 	d.relationships = &relationships
 	Debugf("关系解析完成")
